@@ -93,6 +93,19 @@ def run(ctx):
                 else:
                     ctx.fail('C07.R2', '%s|unique_identifier-store' % q, site, 'the unique identifier of a stored object is assigned by code instead of the database: %s' % short(n._parent))
     ctx.count('identifier_store_sites', n_st, 1)
+    # stores through setattr(obj, <computed name>, value): the abstract interpreter of the handlers resolves the field names a computed name can take
+    from ..engai import EngineAI
+    ai = EngineAI.shared(src)
+    seen_dyn = set()
+    for e in ai.events:
+        if e['kind'] == 'mutation' and e['field'] in ('unique_identifier', 'uid') and (e['fn'], e['line']) not in seen_dyn:
+            seen_dyn.add((e['fn'], e['line']))
+            ctx.fail('C07.R2', 'KmipEngine.%s|unique_identifier-store-by-name' % e['fn'], '%s:%s KmipEngine.%s' % (ENGINE, e['line'], e['fn']),
+                     'the unique identifier of a managed object can be assigned by code (%s, reached from %s): an identifier supplied in a request would bypass the database sequence and can name an identifier that was already handed out' % (e.get('how', 'store'), e['ctx'][0]))
+        if e['kind'] == 'dynamic_field' and e['call'] == 'setattr' and (e['fn'], e['line']) not in seen_dyn:
+            seen_dyn.add((e['fn'], e['line']))
+            ctx.fail('C07.R2', 'KmipEngine.%s|dynamic-setattr' % e['fn'], '%s:%s KmipEngine.%s' % (ENGINE, e['line'], e['fn']),
+                     'setattr on a managed object with a field name that is not a known constant (%s): could store the unique identifier' % e['field'])
     # ---------------- R3
     d = m.method('_process_destroy')
     g = CFG(d)
